@@ -128,6 +128,16 @@ def run_case(cls, params, rec):
 			return "ok", (val[0], val[1])
 		return "ok", (val, None)
 
+	if params.get("prior_override_call"):
+		def plain_handler(module, grad_input, grad_output):
+			return grad_input
+		ov = {t: plain_handler for t in dls.ACT_TYPES}
+		k3 = {k_: v_ for k_, v_ in kw.items() if k_ != "return_references"}
+		if refmode == "tensor":
+			k3["references"] = kw["references"]
+		gen.call(deep_lift_shap, copy.deepcopy(model), X, args=args,
+			additional_nonlinear_ops=ov, **k3)
+		rec.count("prior_override_calls")
 	full = list(range(n))
 	st, base = run(full, n * ns + 3)
 	if st != "ok":
@@ -249,7 +259,8 @@ def gen_case(seed, k):
 		"return_references": r.random() < 0.5,
 		"random_state": r.randrange(1000),
 		"batch_size": r.randint(1, n * ns + 1),
-		"scale_outlier": (1 + k) if k % 4 == 2 else 0}
+		"scale_outlier": (1 + k) if k % 4 == 2 else 0,
+		"prior_override_call": k % 4 == 1}
 
 
 def plan(tier, seed):
